@@ -28,6 +28,7 @@ pub fn gen_conventional(rng: &mut Rng, with_infer: bool) -> Conv {
         let mut a = ArgS { id: format!("id{i}"), ..Default::default() };
         match rng.below(3) { 0 => a.long = Some(longs[i].to_string()), 1 => a.short = Some(shorts[i]), _ => { a.long = Some(longs[i].to_string()); a.short = Some(shorts[i]); } }
         if a.long.is_some() && rng.chance(1, 3) { a.aliases.push(format!("{}-alias", longs[i])); }
+        if a.short.is_some() && rng.chance(1, 3) { a.short_aliases.push(shorts[i].to_ascii_uppercase()); }
         if i < n_opt {
             a.action = Some(if rng.chance(2, 3) { "append" } else { "set" });
             match rng.below(9) { 0 => a.num_vals = Some((1, Some(2))), 1 => a.num_vals = Some((2, Some(2))), 2 => a.num_vals = Some((1, None)),
@@ -114,7 +115,10 @@ pub fn gen_invocation(rng: &mut Rng, cv: &Conv, with_tail: bool) -> Invocation {
 
 /// spelling choices are drawn from `rng`; two renderings of one invocation with different rngs are
 /// two spellings of the same command line
-pub fn render(rng: &mut Rng, cv: &Conv, inv: &Invocation, allow_explicit_escape: bool) -> Vec<Vec<u8>> {
+pub fn render(rng: &mut Rng, cv: &Conv, inv: &Invocation, allow_explicit_escape: bool) -> Vec<Vec<u8>> { render_with(rng, cv, inv, allow_explicit_escape, true) }
+
+/// `attached_short`: may `-ov` / `-o=v` be used (not an equivalent spelling when a positional accepts hyphen values)
+pub fn render_with(rng: &mut Rng, cv: &Conv, inv: &Invocation, allow_explicit_escape: bool, attached_short: bool) -> Vec<Vec<u8>> {
     let mut argv: Vec<Vec<u8>> = vec![b"prog".to_vec()];
     let mut i = 0;
     // an explicit `--` may be inserted before the last run of positional items if nothing but positionals follows
@@ -126,11 +130,12 @@ pub fn render(rng: &mut Rng, cv: &Conv, inv: &Invocation, allow_explicit_escape:
             Item::Flag { arg } => {
                 let a = &cv.cmd.args[*arg];
                 // cluster with following short flags
-                if let Some(s) = a.short {
+                if a.short.is_some() {
+                    let s = short_name(rng, a);
                     let mut cl = format!("-{s}");
                     let mut j = i + 1;
                     while j < inv.items.len() && rng.chance(1, 2) {
-                        if let Item::Flag { arg: b } = &inv.items[j] { if let Some(sb) = cv.cmd.args[*b].short { if escape_at != Some(j) { cl.push(sb); j += 1; continue; } } }
+                        if let Item::Flag { arg: b } = &inv.items[j] { if cv.cmd.args[*b].short.is_some() { if escape_at != Some(j) { cl.push(short_name(rng, &cv.cmd.args[*b])); j += 1; continue; } } }
                         break;
                     }
                     if j > i + 1 || a.long.is_none() || rng.chance(1, 2) { argv.push(cl.into_bytes()); i = j; continue; }
@@ -145,13 +150,13 @@ pub fn render(rng: &mut Rng, cv: &Conv, inv: &Invocation, allow_explicit_escape:
                 if vals.len() == 1 && !(a.num_vals.map(|(_, hi)| hi != Some(1)).unwrap_or(false)) {
                     let v = &vals[0];
                     if use_long { if rng.chance(1, 2) { argv.push(cat(format!("{}=", long_name(rng, cv, a)), v)); } else { argv.push(long_name(rng, cv, a).into_bytes()); argv.push(v.clone()); } }
-                    else { let s = a.short.unwrap(); match rng.below(3) { 0 if !v.is_empty() && v[0] != b'=' => argv.push(cat(format!("-{s}"), v)), 1 => argv.push(cat(format!("-{s}="), v)), _ => { argv.push(format!("-{s}").into_bytes()); argv.push(v.clone()); } } }
+                    else { let s = short_name(rng, a); match rng.below(3) { 0 if attached_short && !v.is_empty() && v[0] != b'=' => argv.push(cat(format!("-{s}"), v)), 1 if attached_short => argv.push(cat(format!("-{s}="), v)), _ => { argv.push(format!("-{s}").into_bytes()); argv.push(v.clone()); } } }
                 } else if vals.len() == 1 && a.num_vals.map(|(lo, _)| lo == 0).unwrap_or(false) {
                     // an optional value must be attached
                     let v = &vals[0];
-                    if use_long { argv.push(cat(format!("{}=", long_name(rng, cv, a)), v)); } else { argv.push(cat(format!("-{}=", a.short.unwrap()), v)); }
+                    if use_long || !attached_short { if a.long.is_some() { argv.push(cat(format!("{}=", long_name(rng, cv, a)), v)); } else { argv.push(cat(format!("-{}=", short_name(rng, a)), v)); } } else { argv.push(cat(format!("-{}=", short_name(rng, a)), v)); }
                 } else {
-                    argv.push(if use_long { long_name(rng, cv, a).into_bytes() } else { format!("-{}", a.short.unwrap()).into_bytes() });
+                    argv.push(if use_long { long_name(rng, cv, a).into_bytes() } else { format!("-{}", short_name(rng, a)).into_bytes() });
                     for v in vals { argv.push(v.clone()); }
                 }
             }
@@ -161,6 +166,10 @@ pub fn render(rng: &mut Rng, cv: &Conv, inv: &Invocation, allow_explicit_escape:
     }
     if let Some(t) = &inv.tail { argv.push(b"--".to_vec()); argv.extend(t.iter().cloned()); }
     argv
+}
+
+fn short_name(rng: &mut Rng, a: &ArgS) -> char {
+    if !a.short_aliases.is_empty() && rng.chance(1, 3) { a.short_aliases[0] } else { a.short.unwrap() }
 }
 
 fn long_name(rng: &mut Rng, cv: &Conv, a: &ArgS) -> String {
